@@ -105,13 +105,15 @@ fn r_proto(cfg: &Cfg, rr: &RunResult, ended: bool, baseline: Option<&RunResult>)
             return Some(format!("call #{i} panicked: {}", r.short()));
         }
         // the probe write after the error must panic and leave the sink untouched
-        match rr.results.get(i + 1) {
-            Some(CallRes::Panic(m)) if m.contains("after a fatal error") => {}
-            Some(other) => return Some(format!("use after an error did not panic as documented: {}", other.short())),
-            None => {}
-        }
-        if rr.sink_len_after.len() > i + 1 && rr.sink_len_after[i + 1] != rr.sink_len_after[i] {
-            return Some("the sink was touched by a call made after an error had been returned".into());
+        for (k, what) in [(1usize, "an empty write"), (2, "a write")] {
+            match rr.results.get(i + k) {
+                Some(CallRes::Panic(m)) if m.contains("after a fatal error") => {}
+                Some(other) => return Some(format!("{what} after an error did not panic as documented: {}", other.short())),
+                None => {}
+            }
+            if rr.sink_len_after.len() > i + k && rr.sink_len_after[i + k] != rr.sink_len_after[i] {
+                return Some("the sink was touched by a call made after an error had been returned".into());
+            }
         }
         let graceful = match r.err_kind() {
             Some(ERR_MEM) => cfg.graceful_mem,
